@@ -40,3 +40,5 @@ def run(ctx):
             ctx.violation("c05-wrapper-correspondence-" + nm.replace("|", "-"),
                           "# Sf.Faults (wholeFrames) and the implementation disagree on the wrapper matrix: %d scripts; first %s line %d\n# implementation: %s\n# model:          %s\n--- script\n%s"
                           % (len(wcorr), nm, k, a[:300], b[:300], sc), no_input=True)
+        from .. import foreignread   # FOREIGN-BUT-VALID layouts (SSND offset with chunks behind it, VOC text / repeat blocks, chunks around the audio ...) judged against the CONSTRUCTION
+        foreignread.run(ctx, "C05")
